@@ -23,5 +23,8 @@ MNext == \/ \E b, h \in BOOLEAN : InterceptRequest(b, h) /\ P([n |-> "InterceptR
                 AddonCall(op, mod) /\ P([n |-> "AddonCall", op |-> op, mod |-> mod])
          \/ \E bad \in BadApply : Apply(bad) /\ P([n |-> "Apply", bad |-> bad])
          \/ \E s \in CloseSet : SessionCloses(s) /\ P([n |-> "SessionCloses", s |-> s])
+         \* IdlePoll is a self-loop at every state: not printed; the harness performs one after
+         \* every replayed edge (the real pump sees queue.Empty) before it compares
+         \/ IdlePoll
 MSpec == MInit /\ [][MNext]_vars
 ====
